@@ -28,6 +28,7 @@ class World:
         self.log = []
         self.pulses = {d: 0 for d in self.dev}
         self.failed_kicks = {d: 0 for d in self.dev}
+        self.ready_room = {}                # (target, source) -> physical room of target when it last told source "ready"
         self.overflowed = False             # a ball reached a device that was physically full (outside what switches can tell)
         for d, cfg in self.dev.items():
             if cfg.get("coil"):
@@ -52,16 +53,22 @@ class World:
         now = self.loop.time()
         return len([t for t in self.transit if t["dst"] == dev and now < t["expected_by"] - 1e-6])
 
+    def note_ready(self, tgt, src):
+        if tgt in self.dev:
+            self.ready_room[(tgt, src)] = self.capacity(tgt) - self.at[tgt] - self.heading_to(tgt)
+
     def on_pulse(self, dev):
         self.pulses[dev] += 1
         self.log.append(("pulse", round(self.loop.time(), 3), dev, self.at[dev]))
         tgt = self.dev[dev]["target"]
         if self.at[dev] > 0 and tgt != "playfield":
             if self.at[tgt] + self.heading_to(tgt) >= self.capacity(tgt):
-                self.violations.append(("fired-at-full-device:%s->%s" % (dev, tgt),
+                room = self.ready_room.get((tgt, dev))
+                kind = "no-ready-answer" if room is None else "no-room-at-ready" if room <= 0 else "room-taken-after-ready"
+                self.violations.append(("fired-at-full-device:%s->%s:%s" % (dev, tgt, kind),
                                         "coil of %s fired at t=%.3f towards %s, which physically holds %d ball(s) with %d more on "
-                                        "the way and has room for %d" % (dev, self.loop.time(), tgt, self.at[tgt], self.heading_to(tgt),
-                                                                         self.capacity(tgt))))
+                                        "the way and has room for %d (room when %s was last told 'ready': %s)" %
+                                        (dev, self.loop.time(), tgt, self.at[tgt], self.heading_to(tgt), self.capacity(tgt), dev, room)))
         if self.at[dev] > 0 and dev not in self.kicks:
             self.kicks.append(dev)
 
